@@ -18,7 +18,8 @@ THEOREMS = ['C04_B_expand_exact', 'C04_B_tree_tidy', 'C04_collapse_is_expand', '
             'C04_collapse_explicit', 'C04_collapse_none_refuted', 'C04_A_sound', 'C04_A_sound_root', 'C04_A_added_ok',
             'C04_A_sound_sentence', 'C04_A_complete_partial', 'C04_A_alg_erasure', 'C04_A_alg_families_sound',
             'C04_A_alg_families_complete', 'C04_A_exact', 'C04_A_complete', 'C04_A_exact_gen', 'C04_A_example',
-            'C04_A_dynamic_erasure', 'C04_A_dynamic_sound', 'C04_A_dynamic_sound_checked', 'C04_A_dynamic_example', 'C04_example']
+            'C04_A_dynamic_erasure', 'C04_A_dynamic_sound', 'C04_A_dynamic_sound_checked', 'C04_A_dynamic_families_sound',
+            'C04_A_dynamic_model_sound', 'C04_A_dynamic_complete_partial', 'C04_A_dynamic_example', 'C04_example']
 GEN_DEPS = []
 RULE = ('random ambiguous grammars (<=4 non-terminals, <=3 alternatives of length <=3, ?rules, _inlined rules, aliases, '
         '[optional] with placeholders, !keep-all rules, filtered anonymous tokens, EBNF * and +), three lexers (basic, '
@@ -53,7 +54,8 @@ ASSUMPTIONS = ['no rule or alias is named _ambig/_iambig (reserved tree labels)'
                'additionally every proper prefix of that match which the terminal matches',
                '%ignore (dynamic lexers): a chain of non-empty re.match results of %ignore terminals may precede any token and '
                'follow the last one; ignorable characters are disjoint from the grammar terminals in the generated grammars; '
-               'layer A (spans) is stated and checked for grammars without %ignore']
+               'layer A for grammars with %ignore: under the basic lexer on the token list the lexer leaves (positions = token '
+               'indices); under the dynamic lexers through the instrumented dynamic model (dyn-families)']
 
 IMPORTS = 'From LV Require Import Base.Prelude Forest.ExplicitToTree Forest.ExplicitCheck.'
 
@@ -1318,7 +1320,7 @@ def run_stream(ctx, stream, ngrammars, cyclic_wanted, maxlen, cases, meta, defs,
                       ambig_nodes=(min(5, repr(obs['tree']).count('_ambig')) if obs['status'] == 'ok' else 'n/a'))
             if verdict:
                 ctx.violation('property-oracle:%s' % verdict[0], witness(g, lexer, text, opts), True, verdict[1])
-            if obs['status'] in ('ok', 'ok-huge') and acases is not None:
+            if obs['status'] in ('ok', 'ok-huge') and acases is not None and (not ignore or lexer == 'basic'):
                 gf = graph_families(obs['root'])
                 ga = export_graph_case(obs['root'], parser, lexer, text, 'a%s%d_%d' % (stream[0], made, len(acases[0])), gf)
                 if gf is not None:
@@ -1370,12 +1372,14 @@ def correspond(ctx):
     run_stream(ctx, 'stacked-corpus', 0, False, 0, cases, meta, defs, acases, corpus=STACKED_CORPUS)
     run_stream(ctx, 'acyclic', ctx.scale(80, 1500) * k, False, 4, cases, meta, defs, acases)
     run_stream(ctx, 'cyclic', ctx.scale(25, 300) * k, True, 3, cases, meta, defs, acases)
-    # %ignore: layer B and the derivation oracle only (the span bookkeeping of layer A has no notion of ignored text)
-    run_stream(ctx, 'ignore', ctx.scale(40, 600) * k, False, 3, cases, meta, defs, None, ignore=True)
+    # %ignore: layer B and the derivation oracle; layer A (graph form, added-vs-forest) where the lexer is basic - the
+    # basic lexer drops the ignored tokens, the parser works on the remaining token list; the dynamic lexers' layer A
+    # is the dyn-families stream
+    run_stream(ctx, 'ignore', ctx.scale(40, 600) * k, False, 3, cases, meta, defs, acases, ignore=True)
     exotic_f6(ctx, cases, meta, defs)
     check_layer_a(ctx, acases)
-    run_alg_families(ctx, ctx.scale(30, 400) * k)
-    run_dyn_families(ctx, ctx.scale(25, 300) * k)
+    run_alg_families(ctx, ctx.scale(25, 400) * k)
+    run_dyn_families(ctx, ctx.scale(20, 300) * k)
     ctx.extra['layer_A_forests_checked'] = len(acases[0])
     # Coq: the model on the captured forests
     bad, errs = ctx.coq_bad_indices('c04', IMPORTS, 'check_case', cases, chunk=150,
@@ -1421,12 +1425,18 @@ def run_alg_families(ctx, ngrammars):
         cyc = rng.random() < 0.25
         opts = {'maybe_placeholders': True, 'keep_all_tokens': False}
         g = gen_grammar(rng, 'basic', cyc)
+        ign_chars = []
+        if rng.random() < 0.33:
+            g, ign_chars = add_ignores(rng, g)
         try:
             parser = with_timeout(lambda: make_parser(g, 'basic', **opts))
         except (GrammarError, Hang):
             continue
         made += 1
-        for text in list(all_inputs('ab', 3)) + ['a' * 4, 'a' * 5, 'abab', 'aabb']:
+        texts = list(all_inputs('ab', 3)) + ['a' * 4, 'a' * 5, 'abab', 'aabb']
+        if ign_chars:
+            texts += [decorate(rng, t, ign_chars) for t in texts]
+        for text in texts:
             try:
                 r = parse_logged(parser, text)
             except Hang:
